@@ -1281,6 +1281,21 @@ Qed.
 Lemma offer_allowed_4 p st : st <> 2 -> offer_allowed p st 4 = true.
 Proof. intros H. unfold offer_allowed. destruct (N.eqb_spec st 2); [contradiction|reflexivity]. Qed.
 
+Lemma inv_do_sendoffer h c x s i stream : Inv h -> Inv (fst (do_sendoffer h c x s i stream)).
+Proof.
+  intros I.
+  unfold do_sendoffer.
+  destruct i as [n|n|k|n]; try (destruct (negb (send_allowed (s_perms s) stream)); [exact I|exact I]).
+  destruct (get_sess h n) as [t|] eqn:Ht; [|destruct (negb (send_allowed (s_perms s) stream)); [exact I|exact I]].
+  destruct (N.eqb_spec (s_backend t) (s_backend s)) as [Hbt|]; cbn [negb]; [|exact I].
+  destruct (N.eqb n x); [exact I|].
+  destruct (negb (send_allowed (s_perms s) stream)); [exact I|].
+  cbv zeta. set (r := match s_kind t with KVirtual p _ => p | _ => n end).
+  destruct (get_sess h r) as [rs|] eqn:Hr; [|exact I].
+  destruct (is_virtual (s_kind rs)) eqn:Hv; [exact I|].
+  destruct (sub_get rs x stream); [now apply inv_send_session|now apply inv_start_create].
+Qed.
+
 Lemma inv_do_media h c sid s to mk stream media :
   Inv h -> get_sess h sid = Some s -> Inv (fst (do_media h c sid s to mk stream media)).
 Proof.
@@ -1299,7 +1314,7 @@ Proof.
     + match goal with |- context [if ?c then _ else _] => destruct c end; [exact I|].
       destruct (negb (same_call h sid s _)); [exact I|].
       destruct (sub_get s _ stream); [now apply inv_send_session|now apply inv_start_create].
-    + destruct (N.eqb mk 2); [|exact I].
+    + destruct (is_cand mk); [|destruct (N.eqb mk 3); [now apply inv_do_sendoffer|exact I]].
       match goal with |- context [if ?c then _ else _] => destruct c end.
       * destruct (negb (send_allowed (s_perms s) stream)); [exact I|]. destruct (aget (s_pubs s) stream); exact I.
       * destruct (sub_get s _ stream); exact I.
